@@ -330,3 +330,11 @@ def _r_islamic_day0(t, impl, expected):
         # the other side of it: the last day of the month before is accepted and reads back as day 0 of the next
         return expected == "lib" and _re.match(r"^INCONSISTENT month \d+!=\d+,day 0!=\d+$", impl) is not None
     return False
+
+
+@region("pdt-from-first-representable-date")
+def _r_pdt_from_first(t, impl, expected):
+    """`PlainDateTime::from(PlainDate)` for the first representable date: midnight of that day is outside the
+    date-time range; the conversion cannot fail, so it returns the out-of-range value."""
+    return (t[0] == "pdt_from_pd" and t[1:4] == ["-271821", "4", "19"] and impl == "ok -271821 4 19 0 0 0 0 0 0 valid=0"
+            and expected == "ok -271821 4 19 0 0 0 0 0 0 valid=1")
